@@ -24,7 +24,10 @@
      is not retired by the iteration or gas limit at this step.
    Fragment: PUSH0..PUSH32, DUP1..16, SWAP1..16 (generic in n), POP, ADD MUL SUB DIV SDIV MOD SMOD EXP LT GT SLT SGT EQ
      ISZERO AND OR XOR NOT SHL SHR SAR, PC, CODESIZE, JUMPDEST, MSTORE, MLOAD, SLOAD, SSTORE, JUMP, JUMPI (both outcomes),
-     and as path ends STOP, INVALID (0xfe), RETURN, REVERT, SELFDESTRUCT and running off the end of the code. *)
+     the environment reads ADDRESS ORIGIN CALLER CALLVALUE GASPRICE COINBASE TIMESTAMP NUMBER PREVRANDAO GASLIMIT
+     CHAINID SELFBALANCE BASEFEE GAS (they push a value that is no constant of the path: `den` = None = the EVM's
+     unknown word), and as path ends STOP, INVALID (0xfe) and the unassigned bytes, RETURN, REVERT, SELFDESTRUCT and
+     running off the end of the code. *)
 From SLX Require Import Base gen.Constants gen.ValueSig gen.OpcodeTable SymVal Micro gen.OpcodeSem Disasm
                         Word256 EvmSpec KnownWord Fold Evm VM Sim SimTrace SimGuards VmCases SimCases.
 From SLX Require Import proofs.DisasmProofs proofs.FoldProofs proofs.VmBounds
